@@ -54,6 +54,50 @@ theorem cohObj_loadExpired {o : Obj} {r : Vals} (h : CohObj o (some r)) :
   · intro a cv hm hcv
     exact h.cv a cv hm hcv
 
+theorem covers_none (a : Attr) : covers none a = true := rfl
+
+theorem covers_some (l : List Attr) (a : Attr) : covers (some l) a = l.contains a := rfl
+
+theorem newObjCols_none (r : Vals) : newObjCols r none = newObj r := rfl
+
+theorem loadExpiredCols_none (o : Obj) (r : Vals) : loadExpiredCols o r none = loadExpired o r := by
+  simp [loadExpiredCols, loadExpired, covers]
+
+/-- with every column in the row the regenerated flag plays no role -/
+theorem populateCols_none (o : Obj) (r : Vals) : populateCols o r none = newObj r := rfl
+
+/-- what `populateCols` is when the source pops absent attributes unconditionally -/
+theorem populateCols_eq (hflag : SaVerif.Gen.ExpireCfg.populateExistingPopsAbsent = true) (o : Obj)
+    (r : Vals) (cols : Option (List Attr)) : populateCols o r cols = newObjCols r cols := by
+  simp [populateCols, newObjCols, hflag]
+
+theorem cohObj_newObjCols (r : Vals) (cols : Option (List Attr)) : CohObj (newObjCols r cols) (some r) := by
+  refine ⟨?_, fun _ _ h => by simp [newObjCols] at h⟩
+  intro a v hd _
+  simp only [newObjCols] at hd
+  by_cases hc : covers cols a = true
+  · simp only [hc, if_true, Option.some.injEq] at hd
+    exact ⟨r, rfl, hd⟩
+  · simp only [hc, Bool.false_eq_true, if_false] at hd
+    cases hd
+
+theorem cohObj_populateCols (hflag : SaVerif.Gen.ExpireCfg.populateExistingPopsAbsent = true) (o : Obj)
+    (r : Vals) (cols : Option (List Attr)) : CohObj (populateCols o r cols) (some r) := by
+  rw [populateCols_eq hflag]; exact cohObj_newObjCols r cols
+
+theorem cohObj_loadExpiredCols {o : Obj} {r : Vals} (h : CohObj o (some r)) (cols : Option (List Attr)) :
+    CohObj (loadExpiredCols o r cols) (some r) := by
+  refine ⟨?_, ?_⟩
+  · intro a v hd hm
+    simp only [loadExpiredCols] at hd hm
+    by_cases hc : ((o.dict a).isNone && !o.mod a && covers cols a) = true
+    · simp only [hc, if_true, Option.some.injEq] at hd
+      exact ⟨r, rfl, hd⟩
+    · simp only [hc, Bool.false_eq_true, if_false] at hd
+      exact h.loaded a v hd hm
+  · intro a cv hm hcv
+    exact h.cv a cv hm hcv
+
 /-- loading into an object whose row is `r`, whatever it was before: only
     previously-unloaded attributes are touched, so coherence is needed for the rest -/
 theorem cohObj_populateAttrs {o : Obj} {r : Vals} (h : CohObj o (some r)) (l : List Attr) :
@@ -118,6 +162,17 @@ theorem wfObj_expireSel {c : Cfg} {o : Obj} (h : WFObj c o) (l : Option (List At
 
 theorem wfObj_loadExpired {c : Cfg} {o : Obj} (h : WFObj c o) (r : Vals) :
     WFObj c (loadExpired o r) :=
+  ⟨fun a hm => h.attr_lt a hm, fun a hm => h.mod_dirty a hm⟩
+
+theorem wfObj_newObjCols (c : Cfg) (r : Vals) (cols : Option (List Attr)) : WFObj c (newObjCols r cols) :=
+  ⟨fun _ h => by simp [newObjCols] at h, fun _ h => by simp [newObjCols] at h⟩
+
+theorem wfObj_populateCols (c : Cfg) (o : Obj) (r : Vals) (cols : Option (List Attr)) :
+    WFObj c (populateCols o r cols) :=
+  ⟨fun _ h => by simp [populateCols] at h, fun _ h => by simp [populateCols] at h⟩
+
+theorem wfObj_loadExpiredCols {c : Cfg} {o : Obj} (h : WFObj c o) (r : Vals) (cols : Option (List Attr)) :
+    WFObj c (loadExpiredCols o r cols) :=
   ⟨fun a hm => h.attr_lt a hm, fun a hm => h.mod_dirty a hm⟩
 
 theorem wfObj_populateAttrs {c : Cfg} {o : Obj} (h : WFObj c o) (l : List Attr) (r : Vals) :
